@@ -618,6 +618,54 @@ def r07m(ctx):
     ctx.floor("R07m", n, 1, "refusals in json.build_tree that print the refused object")
 
 
+def r07n(ctx):
+    m = ctx.model
+    ctx.rule("R07n", "formatters are process-wide singletons (DEFAULT_INSTANCE), so what a print method notes on `self` is still there for "
+                     "the next document: a flag that print-phase code only ever sets to one value, different from its initial one, is never "
+                     "taken back - the second comparison in a process is printed under the first one's flag")
+    base = m.find_class("GraphtageFormatter") or m.need_class("Formatter")
+    n = 0
+    for q in sorted(m.subclasses(base)):
+        stores = {}
+        init_vals = {}
+        for name, (kind, f) in m.attrs[q].items():
+            if kind != "def":
+                if kind == "assign" or kind == "attr":
+                    pass
+                continue
+            for a in walk_no_nested(f.node):
+                tg = val = None
+                if isinstance(a, ast.Assign) and len(a.targets) == 1:
+                    tg, val = a.targets[0], a.value
+                elif isinstance(a, ast.AnnAssign) and a.value is not None:
+                    tg, val = a.target, a.value
+                if tg is None or not self_attr(tg):
+                    continue
+                key = ast.unparse(val) if isinstance(val, ast.Constant) else "<computed>"
+                (init_vals if name == "__init__" else stores).setdefault(self_attr(tg), []).append((key, a, f))
+        # class-level defaults
+        cdef = m.classes[q][1]
+        for st in cdef.body:
+            if isinstance(st, ast.Assign) and isinstance(st.targets[0], ast.Name) and isinstance(st.value, ast.Constant):
+                init_vals.setdefault(st.targets[0].id, []).append((ast.unparse(st.value), st, None))
+            elif isinstance(st, ast.AnnAssign) and isinstance(st.target, ast.Name) and st.value is not None and isinstance(st.value, ast.Constant):
+                init_vals.setdefault(st.target.id, []).append((ast.unparse(st.value), st, None))
+        for attr, lst in sorted(stores.items()):
+            vals = {k for k, *_ in lst}
+            n += 1
+            short = q.rsplit(".", 1)[-1]
+            init = {k for k, *_ in init_vals.get(attr, [])}
+            if len(vals) == 1 and "<computed>" not in vals and init and not (vals <= init):
+                k, a, f = lst[0]
+                ctx.violation("R07n", f.file, f.short, a, f"{short}.{attr} only ever set to {k}",
+                              f"`{norm(a, 40)}` is the only value print-phase code stores in {short}.{attr} (initially {sorted(init)[0]}): once set it stays "
+                              f"set on the shared formatter instance, and later documents - in this run or the next call in the same "
+                              f"process - are printed as if the condition still held")
+            else:
+                ctx.proved("R07n", lst[0][2].file, lst[0][2].short, lst[0][1], f"{short}.{attr}", f"stored values {sorted(vals)}: the flag is taken back or recomputed")
+    ctx.floor("R07n", n, 3, "formatter attributes stored by print-phase methods")
+
+
 def r07l(ctx):
     m = ctx.model
     ctx.rule("R07l", "an edited copy starts with fresh edit state: the constructor of every Edited* class copies the wrapped node's "
@@ -815,6 +863,7 @@ def r07j(ctx):
 def run(ctx):
     r07l(ctx)
     r07m(ctx)
+    r07n(ctx)
     from ..memo import e13
     e13(ctx)          # no value is cached under part of its inputs (stale output on reuse)
     m = ctx.model
